@@ -1104,35 +1104,33 @@ func (d *Data) GetMaxDownresLevel() uint8 {
 
 func (d *Data) StartScaleUpdate(scale uint8) {
 	d.updateMu.Lock()
+	defer d.updateMu.Unlock()
 	d.updates[scale]++
-	d.updateMu.Unlock()
 }
 
 func (d *Data) StopScaleUpdate(scale uint8) {
 	d.updateMu.Lock()
+	defer d.updateMu.Unlock()
 	d.updates[scale]--
 	if d.updates[scale] < 0 {
 		dvid.Criticalf("StopScaleUpdate(%d) called more than StartScaleUpdate.", scale)
 	}
-	d.updateMu.Unlock()
 }
 
 func (d *Data) ScaleUpdating(scale uint8) bool {
 	d.updateMu.RLock()
-	updating := d.updates[scale] > 0
-	d.updateMu.RUnlock()
-	return updating
+	defer d.updateMu.RUnlock()
+	return d.updates[scale] > 0
 }
 
 func (d *Data) AnyScaleUpdating() bool {
 	d.updateMu.RLock()
-	for scale := uint8(0); scale <= d.MaxDownresLevel; scale++ {
+	defer d.updateMu.RUnlock()
+	for scale := 0; scale <= int(d.MaxDownresLevel) && scale < len(d.updates); scale++ {
 		if d.updates[scale] > 0 {
-			d.updateMu.RUnlock()
 			return true
 		}
 	}
-	d.updateMu.RUnlock()
 	return false
 }
 
@@ -1215,7 +1213,7 @@ func NewData(uuid dvid.UUID, id dvid.InstanceID, name dvid.InstanceName, c dvid.
 		}
 		downresLevels = uint8(levels)
 	}
-	data.updates = make([]uint32, downresLevels+1)
+	data.updates = make([]uint32, int(downresLevels)+1)
 
 	data.MaxLabel = make(map[dvid.VersionID]uint64)
 	data.IndexedLabels = indexedLabels
@@ -1303,7 +1301,7 @@ func (d *Data) GobDecode(b []byte) error {
 		dvid.Errorf("Decoding labelarray %q: no MaxDownresLevel, setting to 7", d.DataName())
 		d.MaxDownresLevel = 7
 	}
-	d.updates = make([]uint32, d.MaxDownresLevel+1)
+	d.updates = make([]uint32, int(d.MaxDownresLevel)+1)
 	return nil
 }
 
